@@ -6,7 +6,7 @@ from pyvc.verify import verify_function
 keys = sys.argv[1:] or [k for k, c in REGISTRY.items() if '::' in k and not c.assumed]
 bad = 0
 for k in keys:
-    matches = [kk for kk in REGISTRY if kk.endswith(k)]
+    matches = [kk for kk in REGISTRY if k in kk]
     for kk in matches:
         c = REGISTRY[kk]
         if c.assumed: continue
